@@ -13,24 +13,32 @@ pub fn patience() -> Duration {
     if TIMEOUTS.load(std::sync::atomic::Ordering::Relaxed) < 4 { Duration::from_secs(30) } else { Duration::from_secs(4) }
 }
 
+pub fn timeouts() -> usize {
+    TIMEOUTS.load(std::sync::atomic::Ordering::Relaxed)
+}
+
+pub fn set_timeouts(n: usize) {
+    TIMEOUTS.store(n, std::sync::atomic::Ordering::Relaxed);
+}
+
 pub fn note_timeout() {
     TIMEOUTS.fetch_add(1, std::sync::atomic::Ordering::Relaxed);
 }
 
 pub fn free_port() -> u16 {
-    // a port that is free for both TCP and UDP on the loopback interface
-    for _ in 0..50 {
-        let l = TcpListener::bind(("127.0.0.1", 0)).expect("bind");
-        let p = l.local_addr().unwrap().port();
-        if UdpSocket::bind(("127.0.0.1", p)).is_ok() && TcpListener::bind(("::1", p)).is_ok() {
-            // never the same port twice in one run: trackers set SO_REUSEPORT, so two of them started side by
-            // side on one port would both come up and share the clients between them
-            static HANDED_OUT: std::sync::Mutex<Vec<u16>> = std::sync::Mutex::new(Vec::new());
-            let mut h = HANDED_OUT.lock().unwrap();
-            if h.contains(&p) { continue; }
-            h.push(p);
-            return p;
-        }
+    // a port that is free for both TCP and UDP on the loopback interface, taken from below the kernel's ephemeral
+    // range (so that no other process's bind-to-port-0 can grab it between this probe and the tracker's bind) and
+    // from a stretch of that range that depends on this process's id (other runs of the harness use other stretches);
+    // never the same port twice in one run: trackers set SO_REUSEPORT, so two of them started side by side on one
+    // port would both come up and share the clients between them
+    static NEXT: std::sync::atomic::AtomicU32 = std::sync::atomic::AtomicU32::new(0);
+    let base = (std::process::id().wrapping_mul(7919)) % 20000;
+    for _ in 0..2000 {
+        let k = NEXT.fetch_add(1, std::sync::atomic::Ordering::Relaxed);
+        let p = (10000 + (base + k) % 20000) as u16;
+        let free = TcpListener::bind(("127.0.0.1", p)).is_ok() && UdpSocket::bind(("127.0.0.1", p)).is_ok()
+            && TcpListener::bind(("::1", p)).is_ok() && UdpSocket::bind(("::1", p)).is_ok();
+        if free { return p; }
     }
     panic!("no free port");
 }
@@ -41,11 +49,29 @@ pub struct Server {
     pub started: Instant,
     /// the child's TIMING line, once it has exited
     pub timing: Option<String>,
+    /// the EXIT line of a child that had already exited when `start` returned
+    pub early_exit: Option<String>,
 }
 
 impl Server {
     /// starts `aqv serve <kind> port=<p> <args…>` and waits until it accepts connections
     pub fn start(kind: &str, args: &[String]) -> Option<Server> {
+        // a port found free can be taken by another process before the tracker binds it: such a start says
+        // nothing about the tracker and is tried again on another port
+        for _ in 0..4 {
+            let mut s = Self::start_once(kind, args)?;
+            if let Ok(Some(_)) = s.child.try_wait() {
+                let line = s.exit_line(Duration::from_millis(0)).unwrap_or_default();
+                if line.contains("Address already in use") { continue; }
+                // (the exit line has been consumed: keep it for the caller)
+                s.early_exit = Some(line);
+            }
+            return Some(s);
+        }
+        None
+    }
+
+    fn start_once(kind: &str, args: &[String]) -> Option<Server> {
         let port = free_port();
         let exe = std::env::current_exe().ok()?;
         let mut cmd = Command::new(exe);
@@ -57,7 +83,7 @@ impl Server {
             cmd.pre_exec(|| { libc::prctl(libc::PR_SET_PDEATHSIG, libc::SIGKILL); Ok(()) });
         }
         let child = cmd.stdin(Stdio::null()).stdout(Stdio::piped()).stderr(Stdio::null()).spawn().ok()?;
-        let s = Server { child, port, started: Instant::now(), timing: None };
+        let s = Server { child, port, started: Instant::now(), timing: None, early_exit: None };
         let t0 = Instant::now();
         if kind == "udp" {
             // up when a connect request is answered (or run() has returned: the caller looks at the exit line)
@@ -89,6 +115,7 @@ impl Server {
 
     /// if the tracker's `run()` has returned: its EXIT line
     pub fn exit_line(&mut self, wait: Duration) -> Option<String> {
+        if let Some(l) = self.early_exit.clone() { return Some(l); }
         let t0 = Instant::now();
         loop {
             match self.child.try_wait() {
